@@ -106,6 +106,8 @@ func verifHarness_C11_caller(api int) {
 		err = n.WriteFrameExcept(target, fr)
 	}
 	verifAssert(err == nil, "C11/K4/ok")
+	// hand-over is synchronous (unbuffered request channels): a caller's next write cannot overtake this one
+	verifAssert(cap(n.chWriteAll) == 0 && cap(n.chWriteTo) == 0 && cap(n.chWriteExcept) == 0, "C11/K4/request-channels-synchronous")
 	na, nt, ne := len(n.chWriteAll), len(n.chWriteTo), len(n.chWriteExcept)
 	verifAssert(na+nt+ne == 1, "C11/K4/exactly-one-hand-over")
 	var what interface{}
@@ -139,4 +141,42 @@ func verifHarness_C11_caller(api int) {
 		verifAssert(raw.ID == spec.ID() && verifEqBytes(raw.Payload, wantPayload), "C11/K4/encoded-payload")
 	}
 	verifReach("C11/K4")
+}
+
+// C13 (stall): channel A is full, channel B healthy. Two targeted writes arrive, first to A then to B:
+// the node loop must get past A (discarding for A only) and deliver to B.
+func verifHarness_C13_stall(kind int) {
+	n := verifBareNode(V2, 1, 1)
+	a, b := verifBareChannel(n), verifBareChannel(n)
+	n.channels[a] = struct{}{}
+	n.channels[b] = struct{}{}
+	verifChanSymFill(a.chWrite, writeBufferSize)
+	fillB := verifNondetInt()
+	verifAssume(fillB >= 0 && fillB < writeBufferSize)
+	verifChanSymFill(b.chWrite, fillB)
+	x := &message.MessageRaw{ID: 7, Payload: []byte{1}}
+	y := &message.MessageRaw{ID: 8, Payload: []byte{2}}
+	switch kind {
+	case 0:
+		verifChanPush(n.chWriteTo, writeToReq{a, x})
+		verifChanPush(n.chWriteTo, writeToReq{b, y})
+	case 1:
+		verifChanPush(n.chWriteExcept, writeExceptReq{b, x})
+		verifChanPush(n.chWriteExcept, writeExceptReq{a, y})
+	default:
+		verifChanPush(n.chWriteAll, interface{}(x))
+		verifChanPush(n.chWriteAll, interface{}(y))
+	}
+	blocked := verifRunUntilBlocked(func() { n.run() })
+	verifAssert(blocked, "C13/S/loop-waits-for-next-request")
+	verifAssert(len(n.chWriteTo) == 0 && len(n.chWriteExcept) == 0 && len(n.chWriteAll) == 0, "C13/S/both-requests-consumed")
+	gotA, _ := verifDrainNew(a)
+	gotB, firstB := verifDrainNew(b)
+	verifAssert(gotA == 0, "C13/S/full-channel-discards")
+	if kind == 2 {
+		verifAssert(gotB == 2 || (gotB == 1 && fillB == writeBufferSize-1), "C13/S/healthy-channel-still-served")
+	} else {
+		verifAssert(gotB == 1 && firstB == interface{}(y), "C13/S/healthy-channel-still-served")
+	}
+	verifReach("C13/S")
 }
